@@ -37,11 +37,11 @@ theorem c04_ss2022_request_stream (C : Crypto) (hC : C.Lawful) (ctx : Ctx) (hk :
   exact delivered C ctx env _ a' _ _ _ h
 
 /-- non-vacuity: a concrete request with three later writes (one of them empty) -/
-example : Delivered Crypto.toy Demo.ctx Demo.env
-    (run (unit Crypto.toy Demo.ctx Demo.env) ⟨none, Demo.ds⟩ Demo.wire)
-    Demo.cs.salt [1, 2, 3, 4, 5, 6] { Demo.ds with requestSalt := some Demo.cs.salt, address := some Demo.ad } :=
-  c04_ss2022_request_stream Crypto.toy Crypto.toy_lawful Demo.ctx rfl rfl rfl Demo.cs Demo.ds Demo.env Demo.ad
-    rfl rfl rfl rfl rfl rfl rfl [1, 2, 3] Demo.r Demo.ws (by decide) (by decide) (by decide) (by decide) rfl
+example : Delivered Crypto.toy Demo22.ctx Demo22.env
+    (run (unit Crypto.toy Demo22.ctx Demo22.env) ⟨none, Demo22.ds⟩ Demo22.wire)
+    Demo22.cs.salt [1, 2, 3, 4, 5, 6] { Demo22.ds with requestSalt := some Demo22.cs.salt, address := some Demo22.ad } :=
+  c04_ss2022_request_stream Crypto.toy Crypto.toy_lawful Demo22.ctx rfl rfl rfl Demo22.cs Demo22.ds Demo22.env Demo22.ad
+    rfl rfl rfl rfl rfl rfl rfl [1, 2, 3] Demo22.r Demo22.ws (by decide) (by decide) (by decide) (by decide) rfl
 
 /-- **Response (server → client), whole stream.** -/
 theorem c04_ss2022_response_stream (C : Crypto) (hC : C.Lawful) (ctx : Ctx) (hk : ctx.kind.is2022 = true)
@@ -56,11 +56,11 @@ theorem c04_ss2022_response_stream (C : Crypto) (hC : C.Lawful) (ctx : Ctx) (hk 
   obtain ⟨a', _, h⟩ := response_psk C hC ctx hk ss ds env reqSalt hm hs hrs hsu hdm hdsalt hrl w r ws hnow htime hseen
   exact delivered C ctx env _ a' _ _ _ h
 
-example : Delivered Crypto.toy Demo.ctx Demo.env
-    (run (unit Crypto.toy Demo.ctx Demo.env) ⟨none, Demo.cds⟩ Demo.rwire)
-    Demo.ss.salt [8, 9, 4, 5, 6] { Demo.cds with requestSalt := some Demo.cs.salt } :=
-  c04_ss2022_response_stream Crypto.toy Crypto.toy_lawful Demo.ctx rfl Demo.ss Demo.cds Demo.env Demo.cs.salt
-    rfl rfl rfl rfl rfl rfl rfl [8, 9] Demo.r Demo.ws (by decide) (by decide) rfl
+example : Delivered Crypto.toy Demo22.ctx Demo22.env
+    (run (unit Crypto.toy Demo22.ctx Demo22.env) ⟨none, Demo22.cds⟩ Demo22.rwire)
+    Demo22.ss.salt [8, 9, 4, 5, 6] { Demo22.cds with requestSalt := some Demo22.cs.salt } :=
+  c04_ss2022_response_stream Crypto.toy Crypto.toy_lawful Demo22.ctx rfl Demo22.ss Demo22.cds Demo22.env Demo22.cs.salt
+    rfl rfl rfl rfl rfl rfl rfl [8, 9] Demo22.r Demo22.ws (by decide) (by decide) rfl
 
 /-- **Request, any segmentation whose first read holds salt ‖ fixed-length header** (`n + 27` bytes):
 the result is the whole-stream result, and the decoder ends quiescent. -/
@@ -85,17 +85,17 @@ theorem c04_ss2022_request_segmented (C : Crypto) (hC : C.Lawful) (ctx : Ctx) (h
 
 /-- non-vacuity: first read = exactly salt ‖ fixed-length header (43 bytes), then 1 byte, an empty
 read, and the rest -/
-example : Delivered Crypto.toy Demo.ctx Demo.env
-    ([Demo.wire.take 43, (Demo.wire.drop 43).take 1, [], Demo.wire.drop 44].foldl
-      (feed (unit Crypto.toy Demo.ctx Demo.env)) (run (unit Crypto.toy Demo.ctx Demo.env) ⟨none, Demo.ds⟩ []))
-    Demo.cs.salt [1, 2, 3, 4, 5, 6] { Demo.ds with requestSalt := some Demo.cs.salt, address := some Demo.ad } :=
-  (c04_ss2022_request_segmented Crypto.toy Crypto.toy_lawful Demo.ctx rfl rfl rfl Demo.cs Demo.ds Demo.env Demo.ad
-    rfl rfl rfl rfl rfl rfl rfl [1, 2, 3] Demo.r Demo.ws (by decide) (by decide) (by decide) (by decide) rfl
-    (Demo.wire.take 43) [(Demo.wire.drop 43).take 1, [], Demo.wire.drop 44]
+example : Delivered Crypto.toy Demo22.ctx Demo22.env
+    ([Demo22.wire.take 43, (Demo22.wire.drop 43).take 1, [], Demo22.wire.drop 44].foldl
+      (feed (unit Crypto.toy Demo22.ctx Demo22.env)) (run (unit Crypto.toy Demo22.ctx Demo22.env) ⟨none, Demo22.ds⟩ []))
+    Demo22.cs.salt [1, 2, 3, 4, 5, 6] { Demo22.ds with requestSalt := some Demo22.cs.salt, address := some Demo22.ad } :=
+  (c04_ss2022_request_segmented Crypto.toy Crypto.toy_lawful Demo22.ctx rfl rfl rfl Demo22.cs Demo22.ds Demo22.env Demo22.ad
+    rfl rfl rfl rfl rfl rfl rfl [1, 2, 3] Demo22.r Demo22.ws (by decide) (by decide) (by decide) (by decide) rfl
+    (Demo22.wire.take 43) [(Demo22.wire.drop 43).take 1, [], Demo22.wire.drop 44]
     (by
-      show _ = Demo.wire
+      show _ = Demo22.wire
       simp only [List.flatten_cons, List.flatten_nil, List.append_nil, List.nil_append]
-      rw [show Demo.wire.drop 44 = (Demo.wire.drop 43).drop 1 by rw [List.drop_drop],
+      rw [show Demo22.wire.drop 44 = (Demo22.wire.drop 43).drop 1 by rw [List.drop_drop],
         List.take_append_drop, List.take_append_drop])
     (by decide +kernel)).2
 
@@ -119,15 +119,15 @@ theorem c04_ss2022_response_segmented (C : Crypto) (hC : C.Lawful) (ctx : Ctx) (
   rw [hseg]
   exact ⟨rfl, c04_ss2022_response_stream C hC ctx hk ss ds env reqSalt hm hs hrs hsu hdm hdsalt hrl w r ws hnow htime hseen⟩
 
-example : Delivered Crypto.toy Demo.ctx Demo.env
-    ([Demo.rwire.take 59, Demo.rwire.drop 59].foldl
-      (feed (unit Crypto.toy Demo.ctx Demo.env)) (run (unit Crypto.toy Demo.ctx Demo.env) ⟨none, Demo.cds⟩ []))
-    Demo.ss.salt [8, 9, 4, 5, 6] { Demo.cds with requestSalt := some Demo.cs.salt } :=
-  (c04_ss2022_response_segmented Crypto.toy Crypto.toy_lawful Demo.ctx rfl Demo.ss Demo.cds Demo.env Demo.cs.salt
-    rfl rfl rfl rfl rfl rfl rfl [8, 9] Demo.r Demo.ws (by decide) (by decide) rfl
-    (Demo.rwire.take 59) [Demo.rwire.drop 59]
+example : Delivered Crypto.toy Demo22.ctx Demo22.env
+    ([Demo22.rwire.take 59, Demo22.rwire.drop 59].foldl
+      (feed (unit Crypto.toy Demo22.ctx Demo22.env)) (run (unit Crypto.toy Demo22.ctx Demo22.env) ⟨none, Demo22.cds⟩ []))
+    Demo22.ss.salt [8, 9, 4, 5, 6] { Demo22.cds with requestSalt := some Demo22.cs.salt } :=
+  (c04_ss2022_response_segmented Crypto.toy Crypto.toy_lawful Demo22.ctx rfl Demo22.ss Demo22.cds Demo22.env Demo22.cs.salt
+    rfl rfl rfl rfl rfl rfl rfl [8, 9] Demo22.r Demo22.ws (by decide) (by decide) rfl
+    (Demo22.rwire.take 59) [Demo22.rwire.drop 59]
     (by
-      show _ = Demo.rwire
+      show _ = Demo22.rwire
       simp only [List.flatten_cons, List.flatten_nil, List.append_nil]
       rw [List.take_append_drop])
     (by decide +kernel)).2
@@ -154,12 +154,12 @@ theorem c04_ss2022_request_eih_stream (C : Crypto) (hC : C.Lawful) (cctx sctx : 
   exact delivered C sctx env _ a' _ _ _ h
 
 /-- non-vacuity: two registered users, the second one connects -/
-example : Delivered Crypto.toy Demo.sctx Demo.env
-    (run (unit Crypto.toy Demo.sctx Demo.env) ⟨none, Demo.ds⟩ Demo.ewire)
-    Demo.cs.salt [1, 2, 3, 4, 5, 6]
-    { Demo.ds with requestSalt := some Demo.cs.salt, user := some Demo.user, address := some Demo.ad } :=
-  c04_ss2022_request_eih_stream Crypto.toy Crypto.toy_lawful Demo.cctx Demo.sctx rfl rfl Demo.ipsk rfl rfl Demo.user rfl
-    (by decide +kernel) Demo.cs Demo.ds Demo.env Demo.ad rfl rfl rfl rfl rfl rfl rfl [1, 2, 3] Demo.r Demo.ws
+example : Delivered Crypto.toy Demo22.sctx Demo22.env
+    (run (unit Crypto.toy Demo22.sctx Demo22.env) ⟨none, Demo22.ds⟩ Demo22.ewire)
+    Demo22.cs.salt [1, 2, 3, 4, 5, 6]
+    { Demo22.ds with requestSalt := some Demo22.cs.salt, user := some Demo22.user, address := some Demo22.ad } :=
+  c04_ss2022_request_eih_stream Crypto.toy Crypto.toy_lawful Demo22.cctx Demo22.sctx rfl rfl Demo22.ipsk rfl rfl Demo22.user rfl
+    (by decide +kernel) Demo22.cs Demo22.ds Demo22.env Demo22.ad rfl rfl rfl rfl rfl rfl rfl [1, 2, 3] Demo22.r Demo22.ws
     (by decide) (by decide) (by decide) (by decide) rfl
 
 /-- **Identity-header request, any segmentation whose first read holds salt ‖ identity header ‖
@@ -191,17 +191,17 @@ theorem c04_ss2022_request_eih_segmented (C : Crypto) (hC : C.Lawful) (cctx sctx
   exact ⟨rfl, c04_ss2022_request_eih_stream C hC cctx sctx hkind hse ipsk hcik hskey u hukey hfind cs ds env ad hm ha hs
     hcu hrs hdm hda w r ws had hpad hnow htime hseen⟩
 
-example : Delivered Crypto.toy Demo.sctx Demo.env
-    ([Demo.ewire.take 60, Demo.ewire.drop 60].foldl
-      (feed (unit Crypto.toy Demo.sctx Demo.env)) (run (unit Crypto.toy Demo.sctx Demo.env) ⟨none, Demo.ds⟩ []))
-    Demo.cs.salt [1, 2, 3, 4, 5, 6]
-    { Demo.ds with requestSalt := some Demo.cs.salt, user := some Demo.user, address := some Demo.ad } :=
-  (c04_ss2022_request_eih_segmented Crypto.toy Crypto.toy_lawful Demo.cctx Demo.sctx rfl rfl Demo.ipsk rfl rfl Demo.user rfl
-    (by decide +kernel) Demo.cs Demo.ds Demo.env Demo.ad rfl rfl rfl rfl rfl rfl rfl [1, 2, 3] Demo.r Demo.ws
+example : Delivered Crypto.toy Demo22.sctx Demo22.env
+    ([Demo22.ewire.take 60, Demo22.ewire.drop 60].foldl
+      (feed (unit Crypto.toy Demo22.sctx Demo22.env)) (run (unit Crypto.toy Demo22.sctx Demo22.env) ⟨none, Demo22.ds⟩ []))
+    Demo22.cs.salt [1, 2, 3, 4, 5, 6]
+    { Demo22.ds with requestSalt := some Demo22.cs.salt, user := some Demo22.user, address := some Demo22.ad } :=
+  (c04_ss2022_request_eih_segmented Crypto.toy Crypto.toy_lawful Demo22.cctx Demo22.sctx rfl rfl Demo22.ipsk rfl rfl Demo22.user rfl
+    (by decide +kernel) Demo22.cs Demo22.ds Demo22.env Demo22.ad rfl rfl rfl rfl rfl rfl rfl [1, 2, 3] Demo22.r Demo22.ws
     (by decide) (by decide) (by decide) (by decide) rfl
-    (Demo.ewire.take 60) [Demo.ewire.drop 60]
+    (Demo22.ewire.take 60) [Demo22.ewire.drop 60]
     (by
-      show _ = Demo.ewire
+      show _ = Demo22.ewire
       simp only [List.flatten_cons, List.flatten_nil, List.append_nil]
       rw [List.take_append_drop])
     (by decide +kernel)).2
@@ -224,11 +224,11 @@ theorem c04_ss2022_response_eih_stream (C : Crypto) (hC : C.Lawful) (sctx cctx :
     (by simp [encKey, hsu, hk', hukey]) w r ws hnow htime hseen
   exact delivered C cctx env _ a' _ _ _ h
 
-example : Delivered Crypto.toy Demo.cctx Demo.env
-    (run (unit Crypto.toy Demo.cctx Demo.env) ⟨none, Demo.cds⟩ Demo.uwire)
-    Demo.uss.salt [8, 9, 4, 5, 6] { Demo.cds with requestSalt := some Demo.cs.salt } :=
-  c04_ss2022_response_eih_stream Crypto.toy Crypto.toy_lawful Demo.sctx Demo.cctx rfl rfl Demo.uss Demo.cds Demo.env
-    Demo.cs.salt Demo.user rfl rfl rfl rfl rfl rfl rfl rfl [8, 9] Demo.r Demo.ws (by decide) (by decide) rfl
+example : Delivered Crypto.toy Demo22.cctx Demo22.env
+    (run (unit Crypto.toy Demo22.cctx Demo22.env) ⟨none, Demo22.cds⟩ Demo22.uwire)
+    Demo22.uss.salt [8, 9, 4, 5, 6] { Demo22.cds with requestSalt := some Demo22.cs.salt } :=
+  c04_ss2022_response_eih_stream Crypto.toy Crypto.toy_lawful Demo22.sctx Demo22.cctx rfl rfl Demo22.uss Demo22.cds Demo22.env
+    Demo22.cs.salt Demo22.user rfl rfl rfl rfl rfl rfl rfl rfl [8, 9] Demo22.r Demo22.ws (by decide) (by decide) rfl
 
 
 theorem c04_ss2022_response_eih_segmented (C : Crypto) (hC : C.Lawful) (sctx cctx : Ctx) (hkind : sctx.kind = cctx.kind)
@@ -251,15 +251,15 @@ theorem c04_ss2022_response_eih_segmented (C : Crypto) (hC : C.Lawful) (sctx cct
   exact ⟨rfl, c04_ss2022_response_eih_stream C hC sctx cctx hkind hk ss ds env reqSalt u hm hs hrs hsu hukey hdm hdsalt hrl
     w r ws hnow htime hseen⟩
 
-example : Delivered Crypto.toy Demo.cctx Demo.env
-    ([Demo.uwire.take 59, Demo.uwire.drop 59].foldl
-      (feed (unit Crypto.toy Demo.cctx Demo.env)) (run (unit Crypto.toy Demo.cctx Demo.env) ⟨none, Demo.cds⟩ []))
-    Demo.uss.salt [8, 9, 4, 5, 6] { Demo.cds with requestSalt := some Demo.cs.salt } :=
-  (c04_ss2022_response_eih_segmented Crypto.toy Crypto.toy_lawful Demo.sctx Demo.cctx rfl rfl Demo.uss Demo.cds Demo.env
-    Demo.cs.salt Demo.user rfl rfl rfl rfl rfl rfl rfl rfl [8, 9] Demo.r Demo.ws (by decide) (by decide) rfl
-    (Demo.uwire.take 59) [Demo.uwire.drop 59]
+example : Delivered Crypto.toy Demo22.cctx Demo22.env
+    ([Demo22.uwire.take 59, Demo22.uwire.drop 59].foldl
+      (feed (unit Crypto.toy Demo22.cctx Demo22.env)) (run (unit Crypto.toy Demo22.cctx Demo22.env) ⟨none, Demo22.cds⟩ []))
+    Demo22.uss.salt [8, 9, 4, 5, 6] { Demo22.cds with requestSalt := some Demo22.cs.salt } :=
+  (c04_ss2022_response_eih_segmented Crypto.toy Crypto.toy_lawful Demo22.sctx Demo22.cctx rfl rfl Demo22.uss Demo22.cds Demo22.env
+    Demo22.cs.salt Demo22.user rfl rfl rfl rfl rfl rfl rfl rfl [8, 9] Demo22.r Demo22.ws (by decide) (by decide) rfl
+    (Demo22.uwire.take 59) [Demo22.uwire.drop 59]
     (by
-      show _ = Demo.uwire
+      show _ = Demo22.uwire
       simp only [List.flatten_cons, List.flatten_nil, List.append_nil]
       rw [List.take_append_drop])
     (by decide +kernel)).2
@@ -268,19 +268,19 @@ example : Delivered Crypto.toy Demo.cctx Demo.env
 
 /-- the exemption is real: the same honest request, cut one byte short of the fixed-length header in
 the first read, is refused -/
-example : ([Demo.wire.take 42, Demo.wire.drop 42].foldl
-      (feed (unit Crypto.toy Demo.ctx Demo.env)) (run (unit Crypto.toy Demo.ctx Demo.env) ⟨none, Demo.ds⟩ [])).failed = true := by
+example : ([Demo22.wire.take 42, Demo22.wire.drop 42].foldl
+      (feed (unit Crypto.toy Demo22.ctx Demo22.env)) (run (unit Crypto.toy Demo22.ctx Demo22.env) ⟨none, Demo22.ds⟩ [])).failed = true := by
   decide +kernel
 
 /-- `cs.requestSalt = none` is needed: a client session that already carries a request salt writes a
 longer fixed-length header, which the server refuses -/
-example : (run (unit Crypto.toy Demo.ctx Demo.env) ⟨none, Demo.ds⟩
-    (encodeAll Crypto.toy Demo.ctx { Demo.cs with requestSalt := some [1] } {} (([1, 2, 3], Demo.r) :: Demo.ws)).1).failed = true := by
+example : (run (unit Crypto.toy Demo22.ctx Demo22.env) ⟨none, Demo22.ds⟩
+    (encodeAll Crypto.toy Demo22.ctx { Demo22.cs with requestSalt := some [1] } {} (([1, 2, 3], Demo22.r) :: Demo22.ws)).1).failed = true := by
   decide +kernel
 
 /-- the fit condition is needed — see `request_pad_overflow_fails` (every lawful `C`); a concrete
 instance of its hypotheses: a 7-byte address and 65527 bytes of padding -/
-example : (0xffff : Nat) < (Socks5Addr.encode Demo.ad).length + 2 + (List.replicate 65527 (0 : UInt8)).length ∧
+example : (0xffff : Nat) < (Socks5Addr.encode Demo22.ad).length + 2 + (List.replicate 65527 (0 : UInt8)).length ∧
     (List.replicate 65527 (0 : UInt8)).length < 65536 := by
   rw [List.length_replicate]; decide
 
